@@ -1123,8 +1123,9 @@ class DirectorHandler:
         if self.watcher is None or not self.watcher.busy_watching.is_set():
             return
         async with self.db:
-            # Make all failed steps pending again for rerun.
-            for step in self.workflow.steps(StepState.FAILED):
+            # Make all failed steps pending again for rerun, detached ones too:
+            # they come back with their state when their creator is recycled.
+            for step in self.workflow.steps(StepState.FAILED, include_detached=True):
                 self.workflow.mark_step_pending(step)
         self.watcher.end_watching.set()
         await wait_for_any_event(self.watcher.done_watching, self.stop_event)
